@@ -194,8 +194,20 @@ func runC14(c *Ctx) {
 				localNames[d.Name] = true
 			}
 		}
+		longRounds := 0
+		if r.Fork(0x6c6f6e67).Chance(1, 8) {
+			longRounds = r.Fork(0x6c6f6e68).Range(20, 26)
+			c.Count("workspaces_after_a_long_editing_session", 1)
+		}
 		for _, f := range sw.Files {
 			lazyOpen(srv, ws, sw, f)
+			if longRounds > 0 {
+				// the document has been edited and saved many times before the completions are asked
+				if !sw.LazyOpen {
+					longSession(srv, ws, f.Rel, f.Text, longRounds)
+				}
+				ver = 3000
+			}
 			sites := c14Sites(f)
 			if len(sites) == 0 {
 				continue
